@@ -339,7 +339,7 @@ pub fn eval(inp: &Input) -> Out {
 }
 
 pub fn run(ctx: &Ctx) -> i32 {
-    let cases = ctx.tier.pick(40_000, 1_500_000);
+    let cases = ctx.tier.pick(200_000, 6_000_000);
     let big = ctx.tier == Tier::Thorough;
     let agg = run_prop(ctx, "c20-input", 16, cases, move || strategy(big), |inp: &Input| {
         let out = eval(inp);
